@@ -33,7 +33,7 @@ MUTS = ['append', 'setitem', 'truncate', 'meta', 'delete']
 MUST_HIT = ['copy:Array', 'copy:Ragged', 'src:empty-array', 'src:ragged-nosub', 'dtype:None', 'dtype:given', 'dtype:same-type-other-byteorder',
             'chunk<len', 'archive:xz', 'archive:gz', 'archive:bz2', 'archive:explicit-path', 'archive:existing+ow=False',
             'archive:existing+ow=True', 'archive:spelling', 'archive:long-directory-name', 'meta:nested', 'target-occupied-by-array-with-metadata', 'source-metadata-emptied',
-            'returned-metadata-values-mutated-by-caller'] + ['mut:' + m for m in MUTS]
+            'returned-metadata-values-mutated-by-caller', 'copy-taken-during-iterappend'] + ['mut:' + m for m in MUTS]
 
 
 @st.composite
@@ -48,7 +48,7 @@ def st_copy(draw):
             # 'occupied': the target path holds another array with metadata and is replaced (overwrite=True);
             # 'aliased': values handed out by src.metadata are changed in place by the caller before the copy is made;
             # 'emptied': the source had metadata once, all keys were popped
-            'pre': draw(st.sampled_from([None, None, 'occupied', 'aliased', 'emptied', 'occupied+emptied']))}
+            'pre': draw(st.sampled_from([None, None, 'occupied', 'aliased', 'emptied', 'occupied+emptied', 'during-iterappend']))}
     if kind == 'Array':
         spec['shape'] = draw(gens.st_shape(max_rank=3))
         spec['chunk'] = draw(st.sampled_from([None, 1, 2, 3, 100]))
@@ -223,7 +223,24 @@ def _exec_copy(ctx, spec):
             except (KeyError, TypeError, AttributeError):
                 pass            # (only possible if an earlier change of a returned value already leaked back)
         try:
-            c = src.copy(cp, dtype=dtarg, accessmode=spec['mode'], **kw)
+            if pre == 'during-iterappend' and kind == 'Array' and not spec.get('hugerows'):
+                # the copy is taken by the generator that feeds src.iterappend(), between two of its chunks: it must be a faithful
+                # replica of what the handle shows at that moment
+                out.cls('copy-taken-during-iterappend')
+                tail_ = tuple(spec['shape'][1:])
+                r1 = gens.build_array(dt_of(spec['dt']), (2,) + tail_, {'m': gens.cast_mode(spec['dt']['t'], tdt.name) if dtarg is not None else 'raw', 's': 91})
+                r2 = gens.build_array(dt_of(spec['dt']), (1,) + tail_, {'m': 'safe', 's': 92})
+                box = []
+
+                def feed():
+                    yield r1
+                    box.append((src[:], src.copy(cp, dtype=dtarg, accessmode=spec['mode'], **kw)))
+                    yield r2
+                src.iterappend(feed())
+                ref, c = box[0]
+                empty = ref.shape[0] == 0
+            else:
+                c = src.copy(cp, dtype=dtarg, accessmode=spec['mode'], **kw)
         except Exception as e:
             out.viol('copy-raised', f'{tag}:{type(e).__name__}', f'{type(e).__name__}: {e}')
             return out
@@ -406,7 +423,7 @@ def grid():
 
 
 def pre_grid():
-    for kind, meta, pre, dtarg in itertools.product(['Array', 'Ragged'], [None, 'nested'], ['occupied', 'aliased', 'emptied', 'occupied+emptied'],
+    for kind, meta, pre, dtarg in itertools.product(['Array', 'Ragged'], [None, 'nested'], ['occupied', 'aliased', 'emptied', 'occupied+emptied', 'during-iterappend'],
                                                     [None, {'t': 'float64', 'bo': '>'}]):
         for seed in (1, 2):
             spec = {'f': 'copy', 'kind': kind, 'dt': {'t': 'int16', 'bo': '<'}, 'seed': seed, 'dtarg': dtarg, 'meta': meta, 'mode': 'r+',
